@@ -694,6 +694,34 @@ func main() {
 			delete(selRan, k)
 		}
 		ctxMu.Unlock()
+		if !noisy {
+			// bursts on group values nobody has used: 8 transactions released together per new group
+			for b := 0; b < 1500; b++ {
+				g := fmt.Sprintf("burst%d-%d", round, b)
+				var bw sync.WaitGroup
+				var ready atomic.Int64
+				gate := make(chan struct{})
+				for c := 0; c < 8; c++ {
+					bw.Add(1)
+					go func(c int) {
+						defer bw.Done()
+						if ready.Add(1) == 8 {
+							close(gate)
+						}
+						<-gate
+						fid := fmt.Sprintf("r%d-%s-%d", round, g, c)
+						res := eng.SendRequest(sim.Txn{ID: fid, Method: "GET", URL: "fg.com/x", Headers: map[string]string{"x-fg": g}})
+						st.freshSent.Add(1)
+						if res.Early() {
+							st.freshRefused.Add(1)
+						} else {
+							eng.SendResponse(sim.Txn{ID: fid, Method: "GET", URL: "fg.com/x", Status: 200})
+						}
+					}(c)
+				}
+				bw.Wait()
+			}
+		}
 		v.Count("fresh_group_transactions", int(st.freshSent.Load()))
 		if n := st.freshRefused.Load(); n > 0 && !noisy {
 			v.Violate("C18/fixed-quota-lost-admissions/first-use-of-a-group", fmt.Sprintf("%d of %d transactions whose group value was first used in this round (about ten at a time, limit 1000 per group) were refused (%s)", n, st.freshSent.Load(), note), note)
